@@ -87,7 +87,7 @@ class Init(Contract):
         return {'gen': VBuiltin('gen'), 'asyncio': VBuiltin('asyncio'), 'no_default': VStr('--no-default--'),
                 'identity': VBuiltin('identity'), 'Queue': VBuiltin('Queue'), 'defaultdict': VBuiltin('defaultdict'),
                 'Condition': VBuiltin('Condition'), 'core': VBuiltin('core'), 'get_stream_type': VBuiltin('get_stream_type'),
-                'Streaming': VBuiltin('Streaming'), 'IOLoop': VBuiltin('IOLoop'), 'time': VBuiltin('time')}
+                'Streaming': VBuiltin('Streaming'), 'IOLoop': VBuiltin('IOLoop'), 'time': VBuiltin('time'), 'codecs': VBuiltin('codecs')}
 
     def summaries(self):
         def base_init(I, recv, args, kwargs):
@@ -288,9 +288,10 @@ ALL = [
        method_='accumulate_partitions', file_='streamz/collection.py', self_fields_=['example', '_stream_type'], self_refs_=['stream'],
        extra_=["recorded('accumulate') == call_m('accumulate', self.stream, func, start=kw_start, returns_state=kw_returns_state, **'__kwargs__')"]),
     # from_textfile: with from_end=True the reader starts at the end of the file however the file was handed over (path or object)
-    mk('from_textfile', ['f', 'poll_interval', 'delimiter', 'from_end:bool'],
+    mk('from_textfile', ['f', 'poll_interval', 'delimiter', 'from_end:bool', 'encoding'],
        {'file': 'f', 'delimiter': 'delimiter', 'poll_interval': 'poll_interval'}, ['C17', 'C18'], file_='streamz/sources.py',
-       extra_=["implies(from_end, recorded('seek') == call_m('seek', f, 0, 2))", "implies(not from_end, len(recorded_all('seek')) == 0)",
+       extra_=["self._decoder == call_m('apply', call('codecs.getincrementaldecoder', encoding))",
+               "implies(from_end, recorded('seek') == call_m('seek', f, 0, 2))", "implies(not from_end, len(recorded_all('seek')) == 0)",
                "self.buffer == ''"]),
     # map_async: every task the node creates runs on the node's own loop (C19: one loop per pipeline), futures are passed through
     mk('map_async', ['coro'], {}, ['C19', 'C02'], method_='_create_task', self_fields_=['loop'], positional_=True, tag='_create_task',
